@@ -33,14 +33,16 @@ Map(ks, vs) == [t |-> "map", keys |-> ks, vals |-> vs, v |-> 0, s |-> ""]
 
 J(d, e)    == Obj(<<"D","E">>, <<Num(d), Num(e)>>)
 I(a, b, c) == Obj(<<"A","B","C">>, <<Num(a), Str(b), c>>)
-(* type T struct{ X int; P *I; V I; S []I; M map[string]I; F interface{} }  with I{A int; B string; C J}, J{D, E int} *)
-Value1 == Obj(<<"X","P","V","S","M","F">>,
+(* type T struct{ X int; P *I; V I; S []I; M map[string]I; F interface{}; K *CI }  with I{A int; B string; C J}, J{D, E int};   *)
+(* CI has the shape of I and a context-aware marshaler MarshalJSON(ctx) that forwards ctx to MarshalContext: the sub-query of K  *)
+(* must reach it through the context.                                                                                         *)
+Value1 == Obj(<<"X","P","V","S","M","F","K">>,
               << Num(1), I(2, "p", J(3, 4)), I(5, "v", J(6, 7)),
                  Arr(<<I(8, "s", J(9, 1)), I(2, "t", J(3, 4))>>),
                  Map(<<"k1","k2">>, <<I(5, "m", J(6, 7)), I(8, "n", J(9, 1))>>),
-                 I(2, "f", J(3, 4)) >>)
-Value2 == Obj(<<"X","P","V","S","M","F">>,
-              << Num(0), Null, I(0, "", J(0, 0)), Arr(<<>>), Map(<<>>, <<>>), Null >>)
+                 I(2, "f", J(3, 4)), I(7, "k", J(8, 9)) >>)
+Value2 == Obj(<<"X","P","V","S","M","F","K">>,
+              << Num(0), Null, I(0, "", J(0, 0)), Arr(<<>>), Map(<<>>, <<>>), Null, Null >>)
 Values == <<Value1, Value2>>
 
 RECURSIVE Text(_), TextList(_, _, _)
@@ -56,7 +58,8 @@ TextList(ks, vs, i) ==
 
 (* ---- queries as sets of selector paths ---- *)
 AllPaths == { <<"X">>, <<"Z">>, <<"P">>, <<"P","A">>, <<"P","B">>, <<"P","C">>, <<"P","C","D">>, <<"P","Q">>,
-              <<"V">>, <<"V","A">>, <<"V","C","E">>, <<"S">>, <<"S","A">>, <<"S","C","D">>, <<"M">>, <<"M","B">>, <<"F">>, <<"F","A">> }
+              <<"V">>, <<"V","A">>, <<"V","C","E">>, <<"S">>, <<"S","A">>, <<"S","C","D">>, <<"M">>, <<"M","B">>, <<"F">>, <<"F","A">>,
+              <<"K">>, <<"K","A">>, <<"K","C","E">> }
 
 Heads(q) == { p[1] : p \in q }
 (* a path of length 1 selects the whole member; otherwise only the sub-paths *)
@@ -76,7 +79,7 @@ Project(d, q) ==
 ProjectList(vs, q, i) == IF i > Len(vs) THEN <<>> ELSE <<Project(vs[i], q)>> \o ProjectList(vs, q, i + 1)
 
 (* the query in go-json's JSON spelling: ["X",{"P":["A",{"C":["D"]}]}] ; member order follows a fixed name order *)
-NameOrder == <<"X","Z","P","V","S","M","F","A","B","C","Q","D","E">>
+NameOrder == <<"X","Z","P","V","S","M","F","K","A","B","C","Q","D","E">>
 RECURSIVE QText(_), QItems(_, _, _)
 QText(q) == "[" \o QItems(q, 1, TRUE) \o "]"
 QItems(q, i, first) ==
@@ -114,7 +117,7 @@ Encode(q) ==
                     THEN { p \in stored : p[1] \notin Heads(q) \/ Whole(q, p[1]) \/ p \in prog }   \* the stored tree is narrowed
                     ELSE stored
 EncodePlain == last' = [q |-> NoQuery, emitted |-> stored] /\ UNCHANGED <<stored, cache>>
-HistQueries == { q \in Queries : Cardinality(q) <= 2 /\ \A p \in q : p[1] \in {"X","P"} }
+HistQueries == { q \in Queries : Cardinality(q) <= 2 /\ \A p \in q : p[1] \in {"X","P","K"} }
 Next == steps < MaxHist /\ steps' = steps + 1 /\ ((\E q \in HistQueries : Encode(q)) \/ EncodePlain)
 Spec == Init /\ [][Next]_vars
 
@@ -130,5 +133,5 @@ ASSUME \A q \in Queries :
 ASSUME PrintT(<<"PLAIN", ToJson([i \in 1..Len(Values) |-> Text(Values[i])])>>)
 (* projection laws *)
 ASSUME \A q \in Queries : \A i \in 1..Len(Values) : Project(Project(Values[i], q), q) = Project(Values[i], q)
-ASSUME \A i \in 1..Len(Values) : Project(Values[i], { <<"X">>, <<"P">>, <<"V">>, <<"S">>, <<"M">>, <<"F">> }) = Values[i]
+ASSUME \A i \in 1..Len(Values) : Project(Values[i], { <<"X">>, <<"P">>, <<"V">>, <<"S">>, <<"M">>, <<"F">>, <<"K">> }) = Values[i]
 =============================================================================
